@@ -690,7 +690,8 @@ def unit_dict_to_blockseries(h0_kind, symbolic_keys=False, timeout_ms=10000):
 
 
 def unit_to_scalar_dispatch(timeout_ms=10000):
-    """_to_scalar_BlockSeries: which converter handles which input type; arguments forwarded unchanged."""
+    """_to_scalar_BlockSeries: which converter handles which input type; arguments forwarded unchanged; in Hermitian mode (check_hermitian) a symbolic term that sympy knows to be
+    non-Hermitian and that contains no operators is rejected with ValueError in EVERY container format (single matrix: inside the Taylor expansion, its own unit; list and dictionary: here)."""
     fn = frontend.find(MODULE, "_to_scalar_BlockSeries")
 
     def harness(eng):
@@ -701,28 +702,54 @@ def unit_to_scalar_dispatch(timeout_ms=10000):
                 calls.append((name, a, kw))
                 return T("result-of-" + name, *[x for x in a if isinstance(x, T)])
             return Builtin(name, f)
-        eng.globals.update({"_sympy_to_BlockSeries": mk("_sympy_to_BlockSeries"), "_list_to_dict": Builtin("_list_to_dict", lambda e, l: (calls.append(("_list_to_dict", (l,), {})), {"from-list": l})[1]),
+        nonherm = eng.fresh("h1_is_known_to_be_non_hermitian", "bool")
+        has_ops = eng.fresh("h1_contains_operators", "bool")
+
+        class SymTerm(Val):
+            def __init__(s, name, tri):
+                super().__init__(name, ("MatrixBase",))
+                s.tri = tri
+
+            def m_getattr(s, e, name):
+                if name == "is_hermitian":
+                    if s.tri is None:
+                        return True
+                    return False if e.branch(s.tri) else None
+                if name == "atoms":
+                    return Builtin("atoms", lambda e2, *a: (STup([T("op")], None, True) if (s.tri is not None and e2.branch(has_ops)) else STup([], None, True)))
+                return super().m_getattr(e, name)
+        h0, h1 = SymTerm("h0", None), SymTerm("h1", nonherm)
+        eng.globals.update({"_sympy_to_BlockSeries": mk("_sympy_to_BlockSeries"), "_list_to_dict": Builtin("_list_to_dict", lambda e, l: (calls.append(("_list_to_dict", (l,), {})), {(0,): h0, (1,): h1})[1]),
                             "_dict_to_BlockSeries": mk("_dict_to_BlockSeries"), "type": Builtin("type", lambda e, x: T("type-of", x) if isinstance(x, Model) else T("type")),
-                            "sympy": Namespace("sympy", {"Expr": TypeObj("Expr"), "MatrixBase": TypeObj("MatrixBase")})})
+                            "sympy": Namespace("sympy", {"Expr": TypeObj("Expr"), "MatrixBase": TypeObj("MatrixBase")}), "Operator": TypeObj("Operator"),
+                            "any": Builtin("any", lambda e, it: any(e.truth(v) for v in e.as_seq(it).items))})
         symbols, atol = T("symbols"), T("atol")
         chk = eng.fresh("check_hermitian", "bool")
-        which = next(k for k in ("series", "sympy", "list", "dict", "other") if k == "other" or eng.branch(eng.fresh("input_is_" + k, "bool")))
+        which = next(k for k in ("series", "sympy", "list", "dict", "nested", "other") if k == "other" or eng.branch(eng.fresh("input_is_" + k, "bool")))
         if which == "series":
             x = Val("series", ("BlockSeries",))
         elif which == "sympy":
             x = Val("matrix", ("MatrixBase",))
         elif which == "list":
-            x = STup([T("h0"), T("h1")], None, True)
+            x = STup([h0, h1], None, True)
         elif which == "dict":
-            x = {(0,): T("h0"), (1,): T("h1")}
+            x = {(0,): h0, (1,): h1}
+        elif which == "nested":
+            x = {(0,): STup([STup([h0])], None, True), (1,): STup([STup([h1])], None, True)}      # nested block lists: values are lists, not matrices
         else:
             x = Val("array", ("ndarray",))
+        must_reject = z3.And(chk, nonherm, z3.Not(has_ops)) if which in ("list", "dict") else z3.BoolVal(False)
         try:
             res = eng.call(Closure(fn, Env(None, {}), "_to_scalar_BlockSeries"), [x, symbols, atol], {"check_hermitian": SB(chk)})
         except PyRaise as pr:
-            eng.oblige("unsupported-type-raises-TypeError", z3.BoolVal(which == "other" and pr.exc.cls == "TypeError"), detail=f"{which}: {pr.exc.cls}")
+            if which == "other":
+                eng.oblige("unsupported-type-raises-TypeError", z3.BoolVal(pr.exc.cls == "TypeError"), detail=f"{which}: {pr.exc.cls}")
+            else:
+                eng.oblige("raises-only-ValueError-for-a-term-known-to-be-non-Hermitian-in-Hermitian-mode", z3.And(z3.BoolVal(pr.exc.cls == "ValueError"), must_reject), detail=f"{which}: {pr.exc.cls}")
             return
         eng.oblige("unsupported-type-rejected", z3.BoolVal(which != "other"))
+        eng.oblige("non-Hermitian-symbolic-term-in-a-list-or-dictionary-is-rejected-in-Hermitian-mode", z3.Not(must_reject),
+                   detail="sympy's three-valued is_hermitian is False, no operators in the term, check_hermitian set")
         if which == "series":
             eng.oblige("BlockSeries-used-directly", z3.BoolVal(res is x and not calls))
         elif which == "sympy":
@@ -732,9 +759,9 @@ def unit_to_scalar_dispatch(timeout_ms=10000):
                 ch = calls[0][2].get("check_hermitian")
                 eng.oblige("check_hermitian-forwarded", z3.BoolVal(isinstance(ch, SB) and ch.e is chk or ch is chk))
         elif which == "list":
-            ok = [c[0] for c in calls] == ["_list_to_dict", "_dict_to_BlockSeries"] and calls[0][1][0] is x and isinstance(calls[1][1][0], dict) and calls[1][1][0].get("from-list") is x
+            ok = [c[0] for c in calls] == ["_list_to_dict", "_dict_to_BlockSeries"] and calls[0][1][0] is x and isinstance(calls[1][1][0], dict) and list(calls[1][1][0].values()) == [h0, h1]
             eng.oblige("list-goes-through-_list_to_dict-then-_dict_to_BlockSeries", z3.BoolVal(ok))
-        elif which == "dict":
+        elif which in ("dict", "nested"):
             ok = [c[0] for c in calls] == ["_dict_to_BlockSeries"] and calls[0][1][0] is x and calls[0][1][1] is symbols and calls[0][1][2] is atol
             eng.oblige("dict-goes-to-_dict_to_BlockSeries-with-symbols-and-atol", z3.BoolVal(ok))
     return run_unit("block_diagonalization:_to_scalar_BlockSeries[dispatch]", harness, functions=[(MODULE, "_to_scalar_BlockSeries")], timeout_ms=timeout_ms)
